@@ -191,6 +191,7 @@ Definition dec_cblock (bs : list N) : res cblock :=
   if negb ((l =? 5) || (l =? 6)) then Err else
   bind (read_uint r0) (fun tc r => bind (read_uint r) (fun num r => bind (read_uint r) (fun fl r =>
   bind (read_uint r) (fun crc r => if 2 <? crc then Err else
+  if negb (Bool.eqb (l =? 6) (negb (crc =? 0))) then Err else
   bind (dec_ext tc r) (fun v r =>
     let cb := {| c_num := num; c_flags := fl; c_crc := crc; c_val := v |} in
     if l =? 6 then bind (check_crc crc bs r) (fun _ r => Ok cb r)
@@ -201,6 +202,7 @@ Definition dec_primary (bs : list N) : res primary :=
   if negb ((8 <=? l) && (l <=? 11)) then Err else
   bind (read_uint r) (fun ver r => if negb (ver =? 7) then Err else
   bind (read_uint r) (fun fl r => bind (read_uint r) (fun crc r => if 2 <? crc then Err else
+  if negb (Bool.eqb ((l =? 9) || (l =? 11)) (negb (crc =? 0))) then Err else
   bind (dec_eid r) (fun dst r => bind (dec_eid r) (fun src r => bind (dec_eid r) (fun rpt r =>
   bind (read_arr r) (fun l2 r => if negb (l2 =? 2) then Err else
   bind (read_uint r) (fun tm r => bind (read_uint r) (fun sq r =>
